@@ -108,6 +108,9 @@ example : Impl.urlFromFilePath c17Idna (asciiStr "/home/../a") .posix = none :=
   C17_reject _ _ _ (Or.inr (Or.inr (Or.inl ⟨rfl, by decide⟩)))
 example : Impl.urlFromFilePath c17Idna (asciiStr "/home/" ++ [0]) .posix = none :=
   C17_reject _ _ _ (Or.inr (Or.inr (Or.inr ⟨rfl, by decide⟩)))
+-- (the same rejection by unfolding the model, independent of the theorems above)
+example : Impl.urlFromFilePath c17Idna [0x2F, 0x61, 0x2F, 0x2E, 0x2E] .posix = none := by
+  simp [Impl.urlFromFilePath, Impl.hasDotDotSegment]
 -- an accepted path with every dangerous character: `?`, `#`, `%41`, `:`, `\`, `|`, space, U+00E9,
 -- a "." segment and names that merely contain ".."
 example : (Impl.urlFromFilePath c17Idna (asciiStr "/home/u s/./..a/a?b#c%41:\\|" ++ [0xE9]) .posix).map
@@ -200,6 +203,58 @@ theorem C17_from_path_safe_posix :
 example : ∀ c ∈ asciiStr "/a?b#c", Spec.isScalar c = true := by decide
 example : (Impl.urlFromFilePath c17Idna (asciiStr "/a?b#c") .posix).map (fun u => (u.path, u.query, u.fragment)) =
     some ([asciiStr "a%3Fb%23c"], none, none) := by
+  rw [C17_posix_url_text _ _ (by decide) (by decide) (by decide)]
+  decide +kernel
+
+/-- the path of that URL: the '/'-separated segments of the input, each percent-encoded with the POSIX
+    path set; "." segments are dropped (a trailing "." leaves an empty last segment).
+    `posixPathOf [t] = if t = "." then [[]] else [enc t]`,
+    `posixPathOf (t :: rest) = (if t = "." then [] else [enc t]) ++ posixPathOf rest`. -/
+theorem C17_posix_path :
+    ∀ (idna : Idna) (s : List Nat) (u : Url), (∀ c ∈ s, Spec.isScalar c = true) →
+      Impl.urlFromFilePath idna s .posix = some u →
+      u.path = Proofs.C17.posixPathOf (splitOnP (· == 0x2F) (s.drop 1)) := by
+  intro idna s u hs h
+  obtain ⟨-, -, -, -, -, -, -, -, -, hu⟩ := C17_from_path_safe_posix idna s u hs h
+  have hc : s.head? = some 0x2F ∧ Proofs.C17.dd ∉ splitOnP (· == 0x2F) s := by
+    rw [Proofs.C17.urlFromFilePath_posix] at h
+    apply Classical.byContradiction
+    intro hn
+    rw [if_neg (fun hc => hn ⟨hc.1, hc.2.1⟩)] at h
+    cases h
+  cases s with
+  | nil => simp at hc
+  | cons c0 r =>
+    have hc0 : c0 = 0x2F := by simpa using hc.1
+    subst hc0
+    have hdd := hc.2
+    rw [Proofs.C17.splitOnP_cons_sep _ _ _ (by decide)] at hdd
+    rw [hu]
+    show (Impl.parsePath fileUrl0 (Proofs.C17.encP r)).path = _
+    rw [Proofs.C17.parsePath_posix r (fun c h' => hs c (List.mem_cons_of_mem _ h'))
+      (fun hm => hdd (List.mem_cons_of_mem _ hm))]
+    rfl
+
+example : Proofs.C17.posixPathOf (splitOnP (· == 0x2F) (asciiStr "a b/./c?/.")) =
+    [asciiStr "a%20b", asciiStr "c%3F", []] := by decide +kernel
+example : (Impl.urlFromFilePath c17Idna (asciiStr "/a b/./c?/.") .posix).map (fun u => u.path) =
+    some [asciiStr "a%20b", asciiStr "c%3F", []] := by
+  rw [C17_posix_url_text _ _ (by decide) (by decide) (by decide)]
+  decide +kernel
+
+/-- POSIX round trip: for a path without "." segments the URL's pathname is the percent-encoded path
+    and `path_from_file_url` returns the UTF-8 bytes of the original path -/
+theorem C17_roundtrip_posix :
+    ∀ (idna : Idna) (s : List Nat) (u : Url), (∀ c ∈ s, Spec.isScalar c = true) →
+      Impl.urlFromFilePath idna s .posix = some u →
+      [0x2E] ∉ splitOnP (· == 0x2F) s →
+      Impl.pathText u = Impl.percentEncode Impl.posixPathNoEnc s ∧
+      Impl.pathFromFileUrl u .posix = some (Spec.utf8Encode s) :=
+  fun idna s u hs h hnd => (Proofs.C17.roundtrip_posix idna s u hs h hnd).2
+
+example : [0x2E] ∉ splitOnP (· == 0x2F) (asciiStr "/a b/c?#%41/") := by decide
+-- with a "." segment the path comes back normalised: "/a/./b" → file:///a/b → "/a/b"
+example : (Impl.urlFromFilePath c17Idna (asciiStr "/a/./b") .posix).map Impl.pathText = some (asciiStr "/a/b") := by
   rw [C17_posix_url_text _ _ (by decide) (by decide) (by decide)]
   decide +kernel
 
@@ -325,9 +380,19 @@ example : Impl.urlFromFilePath c17Idna (asciiStr "dir\\f") .windows = none ∧
     Impl.urlFromFilePath c17Idna (asciiStr "\\\\host\\share\\..\\x") .windows = none ∧
     Impl.urlFromFilePath c17Idna (asciiStr "\\\\host\\..\\x") .windows = none := by
   simp only [C17_windows_eq]; decide +kernel
--- NOT rejected: ".." as the UNC host name (only "." and "?" are excluded by is_unc_path)
+-- boundary cases that are NOT rejected (same results from the C++ library):
+-- ".." as the UNC host name (only "." and "?" are excluded by is_unc_path); a "localhost" host is dropped
+-- by the file host state, so a drive-like share name then is a drive letter for the path state
+-- (`\\localhost\C:\x` → `file:///C:/x`); the share name "C|" is rewritten to "C:" by the path state
 example : (Impl.urlFromFilePath c17Idna (asciiStr "\\\\..\\share\\x") .windows).map
       (fun u => Impl.serialize u) = some (asciiStr "file://../share/x") := by
+  rw [C17_windows_eq]; decide +kernel
+
+example : (Impl.urlFromFilePath c17Idna (asciiStr "\\\\localhost\\C:\\x") .windows).map
+      (fun u => Impl.serialize u) = some (asciiStr "file:///C:/x") := by
+  rw [C17_windows_eq]; decide +kernel
+example : (Impl.urlFromFilePath c17Idna (asciiStr "\\\\host\\C|\\x") .windows).map
+      (fun u => Impl.serialize u) = some (asciiStr "file://host/C:/x") := by
   rw [C17_windows_eq]; decide +kernel
 
 /-! ### 6. path_from_file_url: the shape of the returned path -/
@@ -479,6 +544,8 @@ end Upa.Props
 #print axioms Upa.Props.C17_percent_encoded_windows
 #print axioms Upa.Props.C17_encode_roundtrip
 #print axioms Upa.Props.C17_from_path_safe_posix
+#print axioms Upa.Props.C17_posix_path
+#print axioms Upa.Props.C17_roundtrip_posix
 #print axioms Upa.Props.C17_windows_eq
 #print axioms Upa.Props.C17_reject_windows
 #print axioms Upa.Props.C17_from_path_safe_windows
